@@ -9,7 +9,9 @@ vars == <<c, phase>>
 Cross == {[m |-> m, x |-> x, t |-> t, v |-> "plain"] : m \in AllNames, x \in AxisNames, t \in TypeNames}
 Vars == UNION {{[m |-> m, x |-> x, t |-> t, v |-> v] : x \in {"(default)", "leadtime", "threshold", "no", "location"}, t \in {"plot", "csv", "impact"},
                  v \in Variants(m) \ {"plain"}} : m \in AllNames}
-Init == c \in (IF Part = "cross" THEN Cross ELSE Vars) /\ phase = "combo"
+\* the same command lines on THREE input files (views that compare the inputs with each other: rank, maprank; and the plain ones)
+Three == {[m |-> m, x |-> x, t |-> t, v |-> "three-files"] : m \in AllNames, x \in {"(default)", "leadtime", "location", "no"}, t \in {"rank", "maprank", "plot", "csv"}}
+Init == c \in (IF Part = "cross" THEN Cross ELSE Vars \cup Three) /\ phase = "combo"
 Evaluate == phase = "combo" /\ phase' = "emitted" /\ c' = c
             /\ PrintT(ToJson([m |-> c.m, x |-> c.x, t |-> c.t, v |-> c.v, argv |-> ArgvOf(c.m, c.x, c.t, c.v), predict |-> Predict(c.m, c.x, c.t, c.v)]))
 Next == Evaluate
